@@ -193,6 +193,42 @@ MAP = [
 ]
 
 
+# Functions whose model is (also) REGENERATED FROM THE SOURCE TEXT on every run, the first of the two ties the brief names:
+# (file, qualified name, translator module, generated definitions, theorems that equate the generated terms with the hand model)
+TRANSLATED = [
+    # ---- C01: index conversion (harness/trans_indexsrc.py -> Gen/IndexSrc.lean)
+    (B, 'DimensionConvention.ravel_index', 'trans_indexsrc', ['Ems.Gen.IndexSrc.ravelIndexBody'], ['Ems.C01.ravel_index_generated']),
+    (B, 'DimensionConvention.wind_index', 'trans_indexsrc', ['Ems.Gen.IndexSrc.windIndexBody'], ['Ems.C01.wind_index_generated']),
+    (B, 'DimensionConvention.grid_size', 'trans_indexsrc', ['Ems.Gen.IndexSrc.gridSizeEntry'], ['Ems.C01.grid_size_generated']),
+    (G, 'CFGrid.pack_index', 'trans_indexsrc', ['Ems.Gen.IndexSrc.cfPack'], ['Ems.C01.cf_pack_generated']),
+    (G, 'CFGrid.unpack_index', 'trans_indexsrc', ['Ems.Gen.IndexSrc.cfUnpack'], ['Ems.C01.cf_unpack_generated']),
+    (A, 'ArakawaC.pack_index', 'trans_indexsrc', ['Ems.Gen.IndexSrc.arakawaPack'], ['Ems.C01.arakawa_pack_generated']),
+    (A, 'ArakawaC.unpack_index', 'trans_indexsrc', ['Ems.Gen.IndexSrc.arakawaUnpack'], ['Ems.C01.arakawa_unpack_generated']),
+    (U, 'UGrid.pack_index', 'trans_indexsrc', ['Ems.Gen.IndexSrc.ugridPack'], ['Ems.C01.ugrid_pack_generated']),
+    (U, 'UGrid.unpack_index', 'trans_indexsrc', ['Ems.Gen.IndexSrc.ugridUnpack'], ['Ems.C01.ugrid_unpack_generated']),
+    # ---- C03: dimension / shape arithmetic of flattening and winding (harness/trans_dimssrc.py -> Gen/DimsSrc.lean)
+    (UT, 'move_dimensions_to_end', 'trans_dimssrc', ['Ems.Gen.DimsSrc.moveNewOrder', 'Ems.Gen.DimsSrc.moveGuard', 'Ems.Gen.DimsSrc.moveTransposes'],
+     ['Ems.C03.move_order_generated', 'Ems.C03.move_structure_generated']),
+    (UT, 'ravel_dimensions', 'trans_dimssrc', ['Ems.Gen.DimsSrc.ravelNewDims', 'Ems.Gen.DimsSrc.ravelNewShape', 'Ems.Gen.DimsSrc.ravelKeptDims'],
+     ['Ems.C03.ravel_dims_generated', 'Ems.C03.ravel_generated_matches_model']),
+    (UT, 'wind_dimension', 'trans_dimssrc', ['Ems.Gen.DimsSrc.windNewDims', 'Ems.Gen.DimsSrc.windNewShape'],
+     ['Ems.C03.wind_dims_generated', 'Ems.C03.wind_generated_matches_model']),
+    (UT, 'splice_tuple', 'trans_dimssrc', ['Ems.Gen.DimsSrc.spliceBody'], ['Ems.C03.splice_generated']),
+    (UT, 'find_unused_dimension', 'trans_dimssrc', ['Ems.Gen.DimsSrc.findUnusedSeparator', 'Ems.Gen.DimsSrc.findUnusedStart'],
+     ['Ems.C03.find_unused_generated']),
+    # ---- earlier phases (harness/pipelines.py -> Gen/Pipelines.lean; harness/tables.py -> Gen/Tables.lean)
+    (G, 'CFGrid1D._make_polygons', 'pipelines', ['Ems.Gen.cf1dPolygonPoints'], ['Ems.C06.cf1d_pipeline_spec']),
+    (G, 'CFGrid2D._make_polygons', 'pipelines', ['Ems.Gen.cf2dPolygonPoints'], ['Ems.C06.cf2d_pipeline_spec']),
+    (A, 'ArakawaC._make_polygons', 'pipelines', ['Ems.Gen.arakawaPolygonPoints'], ['Ems.C06.arakawa_pipeline_spec']),
+    (G, 'CFGrid1DTopology._get_or_make_bounds', 'pipelines', ['Ems.Gen.cf1dMidBounds'], ['Ems.C06.cf1d_midbounds_pipeline_spec']),
+    (G, 'CFGrid2DTopology._get_or_make_bounds', 'pipelines', ['Ems.Gen.cf2dDerivedBounds'], ['Ems.C06.cf2d_derived_pipeline_spec']),
+    (G, 'CFGrid1D.face_centres', 'pipelines', ['Ems.Gen.cf1dFaceCentres'], ['Ems.C06.cf1d_centres_pipeline_spec']),
+    (A, 'c_mask_from_centres', 'pipelines', ['Ems.Gen.cMaskLeft', 'Ems.Gen.cMaskBack', 'Ems.Gen.cMaskNode'],
+     ['Ems.C07.cmask_left_pipeline_spec', 'Ems.C07.cmask_back_pipeline_spec', 'Ems.C07.cmask_node_pipeline_spec']),
+    (M, 'blur_mask', 'pipelines', ['Ems.Gen.blurMask'], ['Ems.C07.blur_pipeline_spec']),
+]
+
+
 def _strip_docstring(node: ast.AST) -> None:
     body = getattr(node, 'body', None)
     if body and isinstance(body[0], ast.Expr) and isinstance(getattr(body[0], 'value', None), ast.Constant) \
@@ -261,6 +297,13 @@ def lean_definitions() -> set:
     return out
 
 
+def theorem_names() -> set:
+    out = set()
+    for p in (VERIF / 'lean' / 'EmsModel' / 'Props').glob('*.lean'):
+        out |= set(re.findall(r'^\s*theorem\s+([A-Za-z_][\w\']*)', p.read_text(), flags=re.M))
+    return out
+
+
 def check() -> int:
     """stale entries of the map itself: a Lean name that does not exist, a function that does not exist"""
     defs = lean_definitions()
@@ -274,7 +317,21 @@ def check() -> int:
             if l not in defs and l.split('.')[-1] not in short:
                 print(f'no such Lean definition: {l} (for {q})')
                 bad += 1
-    print(f'{len(MAP)} modelled functions, {len(defs)} Core definitions, {bad} stale entries')
+    thms = theorem_names()
+    for f, q, _mod, gens, ths in TRANSLATED:
+        if function_hash(pathlib.Path('/repo'), f, q) is None:
+            print(f'missing in /repo: {f}:{q}')
+            bad += 1
+        for g in gens:
+            if g not in defs and g.split('.')[-1] not in short:
+                print(f'no such generated definition: {g} (for {q})')
+                bad += 1
+        for t in ths:
+            if t.split('.')[-1] not in thms:
+                print(f'no such theorem: {t} (for {q})')
+                bad += 1
+    print(f'{len(MAP)} modelled functions ({len({(f, q) for f, q, *_ in TRANSLATED})} of them also translated from the source on every run), '
+          f'{len(defs)} Core/Gen definitions, {bad} stale entries')
     return 1 if bad else 0
 
 
